@@ -142,8 +142,19 @@ func (w *dWorld) opRequest(cmd []string) (string, string) {
 			w.cancelDelay = 0
 		}
 	}
+	w.obs.take()
 	rep := w.call(implKind, p, cid, kind == "addc")
 	view := w.k8s.take(p)
+	if old, ok := pre.db[p]; ok && kind == "del" && old.cid == cid {
+		// the teardown is reported for the sandbox the DEL is for: the pod UID stored at its ADD, also when a new
+		// pod of the same name exists by now
+		for _, seen := range w.obs.take() {
+			if seen[1] != old.uid {
+				w.violate("C03/daemon/teardown-reported-for-wrong-uid", fmt.Sprintf("DEL of %s (sandbox %s, set up for pod UID %s) reported the teardown for UID %q", p, cid, old.uid, seen[1]))
+			}
+			w.c.Count("teardown-reports")
+		}
+	}
 	post := w.observe()
 	if kind == "addc" && rep.reply == "ok" {
 		// served before the context ended: an ordinary ADD
@@ -705,6 +716,13 @@ func (w *dWorld) genCase(focus string) {
 		tot := wAdd + wDel + wGet + wConc + wGC + wRestart + wCrash + wAPI
 		x = r.Intn(tot)
 		// macros: short scripted bursts around the rare events
+		if len(w.parked) == 0 && focus == "C03" && r.Intn(6) == 0 {
+			// the pod is re-created under its name while the old sandbox is still there; then the DEL arrives
+			do("dm.add", p, pickCid(p))
+			do("#api.create", p, "0", dwNode)
+			do("dm.del", p, curCid(p))
+			continue
+		}
 		if len(w.parked) == 0 && r.Intn(14) == 0 {
 			switch {
 			case focus == "C09" || r.Intn(3) == 0:
